@@ -486,10 +486,10 @@ def obligations(tier):
         Obligation("O1-ipv4", make_ipv4(False, thorough), ["ipv4-gone"], desc="[ctx] IPv4 [ctx ctx]: octet shapes with symbolic digits, unconstrained context characters, keep-width on/off",
                    bounds={"tokens": "1 address; " + ("every octet takes every shape of %s" % K.OCTET_SHAPES if thorough else "either the first or the last octet takes every shape of %s, the others one or two digits; keep-width off" % K.OCTET_SHAPES),
                            "context": "0-1 char before; after: %s; any code point of UNIVERSE except newline" % ("0-2 chars" if thorough else "0-1 char, or '.' + 1 char")},
-                   stubs=K.STUBS, outside=outside, encoded=enc[:3], budget_s=1800 if thorough else 200, replay="clean", check_sample=True),
+                   stubs=K.STUBS, outside=outside, encoded=enc[:3], budget_s=1200 if thorough else 200, replay="clean", check_sample=True),
         Obligation("O1b-ipv4-pair", make_ipv4(True, thorough), ["ipv4-gone"], desc="IPv4 [ctx] IPv4 on one line (the second may be a prefix / suffix / repetition of the first)",
                    bounds={"tokens": "2 addresses: " + ("z.z.z.z each, 8 symbolic digits" if thorough else "1.2.z.nz and 1.2.z.(nz|z), 5-6 symbolic digits"), "context": "1 unconstrained char between"},
-                   stubs=K.STUBS, outside=outside, encoded=enc[:3], budget_s=1800 if thorough else 200, replay="clean", check_sample=True),
+                   stubs=K.STUBS, outside=outside, encoded=enc[:3], budget_s=900 if thorough else 200, replay="clean", check_sample=True),
         Obligation("O2-mac", make_mac((0, 5) if thorough else (0,)), ["mac-gone"], desc="[ctx] MAC [ctx]: ':' or '-' separated, upper or lower case, symbolic hex digits",
                    bounds={"tokens": "1 MAC address: first %s symbolic hex digits, the other pairs all 00 / ff / 3c" % ("and last pair" if thorough else "pair"), "context": "0-1 char on each side"}, stubs=K.STUBS, outside=outside, encoded=enc[3:5], budget_s=900 if thorough else 150,
                    replay="clean", check_sample=True),
